@@ -115,21 +115,31 @@ def filter_replay(inputs, clause):
             if 'I' in cig:
                 return {'status': 'no-input', 'note': 'cigar with I and D and exact span not realised'}
         w['cigartuples'] = ops
-    w['tags'] = {k: (int(v) if k in ('NM', 'NH', 'DS') else str(v)) for k, v in w['tags'].items()}
+    # an empty string cannot be stored as a tag value: realise it by an equivalent non-empty one
+    w['tags'] = {k: (int(v) if k in ('NM', 'NH', 'DS') else (str(v) or (';' if k == 'XA' else 'x'))) for k, v in w['tags'].items()}
     seg = B.make_segment(header, w, contig, 'q')
     a = inputs['args']['attrs']
     args = types.SimpleNamespace(**a)
     bl = None
+    BLv = (0, 0)
     if inputs.get('blacklist_dic'):
-        bl = {'chrB': [tuple(inputs['blacklist_dic']['chrB'][0])]}
+        BLv = tuple(inputs['blacklist_dic']['chrB'][0])
+        bl = {'chrB': [BLv]}
+    rec = {'flag': seg.flag, 'cigar': seg.cigarstring, 'tags': dict(seg.get_tags()), 'reference_name': seg.reference_name,
+           'reference_start': seg.reference_start, 'reference_end': seg.reference_end, 'mapping_quality': seg.mapping_quality}
     try:
         got = fn(seg, args, bl)
     except Exception as e:       # noqa
-        return {'status': 'confirmed', 'observed': {'outcome': 'raise', 'value': [type(e).__name__, str(e)],
-                                                    'record': {'flag': seg.flag, 'cigar': seg.cigarstring, 'tags': dict(seg.get_tags())},
-                                                    'args': a},
+        return {'status': 'confirmed', 'observed': {'outcome': 'raise', 'value': [type(e).__name__, str(e)], 'record': rec, 'args': a},
                 'failed': [{'clause': 'raises.only', 'exception': type(e).__name__}]}
-    return {'status': 'not-reproduced', 'observed': {'outcome': 'return', 'value': got}}
+    # the clause of the property statement, evaluated natively on the real record
+    env = {'read': seg, 'args': args, 'blacklist_dic': bl, 'BL': BLv,
+           'XA_HIT': import_real(F, 'read_has_alternative_hits_to_non_alts')(seg)}
+    expected = bool(not seg.is_unmapped and eval(PASSES, {}, env) and not eval(BLACKLISTED, {}, env))
+    obs = {'outcome': 'return', 'value': got, 'expected': expected, 'record': rec, 'args': a}
+    if bool(got) != expected:
+        return {'status': 'confirmed', 'observed': obs, 'failed': [{'clause': 'counted_iff_every_selected_filter_passes'}]}
+    return {'status': 'not-reproduced', 'observed': obs}
 
 
 should_count.replay = filter_replay
